@@ -326,7 +326,11 @@ def _fk_probes():
             for k, gl in enumerate(goals):
                 if (k + int(spin * 10) + int(mode)) % 2 and spin != 0.6:
                     continue        # thin out: every goal at spin 0.6, every other one elsewhere
-                out.append(dict(spin=spin, mode=mode, moved=float(k % 2), gx=gl[0], gy=gl[1], gz=gl[2], rx=gl[3], ry=gl[4], rz=gl[5]))
+                out.append(dict(spin=spin, mode=mode, moved=float(k % 2), explicit=0.0, gx=gl[0], gy=gl[1], gz=gl[2], rx=gl[3], ry=gl[4], rz=gl[5]))
+    # FK given an explicit bottom pose other than the current one (the platform stands at the origin)
+    for mode in (0.0, 1.0):
+        gl = goals[1]
+        out.append(dict(spin=0.0, mode=mode, moved=0.0, explicit=1.0, gx=gl[0], gy=gl[1], gz=gl[2], rx=gl[3], ry=gl[4], rz=gl[5]))
     return out
 
 
@@ -336,14 +340,14 @@ class SP_FK_inverts_IK_probes(SPC):
     pose, started from the neutral pose, recovers the pose and reports the requested lengths -- both FK solvers,
     platforms at the origin and moved, re-spun by 0 / 0.6 / -1.1 rad.  Convergence of Newton-Raphson / fsolve is outside
     the reach of contracts (DESIGN section 5); this runs the listed inputs on the native code only."""
-    prop = 'C09'
+    prop = ('C09', 'C10')
     target = SPM + ':SP.FK'
     tol = 1e-3
     probes = _fk_probes()
     shape_bound = 'probes: %d listed (geometry, spin, solver, pose) inputs on the native code' % len(probes)
 
     def run(self, g, fn, args, kwargs):
-        v = {k: g.real(k, lo=-2.0, hi=2.0) for k in ('spin', 'mode', 'moved', 'gx', 'gy', 'gz', 'rx', 'ry', 'rz')}
+        v = {k: g.real(k, lo=-2.0, hi=2.0) for k in ('spin', 'mode', 'moved', 'explicit', 'gx', 'gy', 'gz', 'rx', 'ry', 'rz')}
         if g.mode != 'concrete':
             return None
         spm = g.module(SPM)
@@ -353,14 +357,22 @@ class SP_FK_inverts_IK_probes(SPC):
         if abs(v['spin']) > 0:
             sp.spinCustom(float(v['spin']))
         h = sp._nominal_height
-        goal = sp.getBottomT() @ tm([v['gx'], v['gy'], h * (1 + v['gz']), v['rx'], v['ry'], v['rz']])
+        rel = tm([v['gx'], v['gy'], h * (1 + v['gz']), v['rx'], v['ry'], v['rz']])
+        goal = sp.getBottomT() @ rel
         sp.IK(goal)
         if not sp.validate(True):
             from pyvc.contract import Reject
             raise Reject('pose outside the workspace')
         L = _np.array(sp.getLens(), dtype=float).copy()
         sp.IK(sp.getBottomT() @ sp._nominal_plate_transform)
-        sp.FK(L.copy(), fk_mode=int(round(v['mode'])))
+        self.bottom_expected = sp.getBottomT().copy()
+        if v['explicit'] > 0.5:
+            other = tm([0.4, -0.3, 0.2, 0.1, -0.2, 0.3])
+            goal = other @ rel
+            self.bottom_expected = other.copy()
+            sp.FK(L.copy(), plate_pos=other.copy(), fk_mode=int(round(v['mode'])))
+        else:
+            sp.FK(L.copy(), fk_mode=int(round(v['mode'])))
         return sp, goal, L, h
 
     def post(self, g, out, args, kwargs):
@@ -370,6 +382,13 @@ class SP_FK_inverts_IK_probes(SPC):
         sp, goal, L, h = out
         g.eq('FK of the IK lengths recovers the pose (to 1e-3 of the neutral height)', sp.getTopT().gTM() / h, goal.gTM() / h)
         g.eq('lengths reported after FK are the requested ones', _np.array(sp.getLens(), dtype=float).reshape(-1) / h, L.reshape(-1) / h)
+        Mb, Mt = _np.array(sp.getBottomT().gTM(), dtype=float), _np.array(sp.getTopT().gTM(), dtype=float)
+        g.eq('after FK the published bottom pose is the one FK was asked to use', Mb / h, _np.array(self.bottom_expected.gTM(), dtype=float) / h)
+        bj, tj = _np.array(sp._bottom_joints_local, dtype=float), _np.array(sp._top_joints_local, dtype=float)
+        g.eq('after FK the bottom joints = bottom pose applied to the plate-fixed points',
+             _np.array(sp.getBottomJoints(), dtype=float) / h, (Mb[0:3, 0:3] @ bj + Mb[0:3, 3:4]) / h)
+        g.eq('after FK the top joints = top pose applied to the plate-fixed points',
+             _np.array(sp.getTopJoints(), dtype=float) / h, (Mt[0:3, 0:3] @ tj + Mt[0:3, 3:4]) / h)
 
 
 @register
